@@ -181,6 +181,24 @@ def queryLoop {σ : Type} (c : Cur σ) (waitTimeout lim : Nat) : Nat → Nat →
         | (.data, s'') => queryLoop c waitTimeout lim fuel limit s'' acc
       else .ok acc.reverse
 
+/-- the shape of a Query loop as the extractor reads it from the source: it waits exactly when
+`err == io.EOF && limit == lim && WaitTimeout > 0`, with a fresh timeout per wait, and leaves on a wait error; `earlyEmpty`:
+the function answers empty before it creates a cursor when `lim == 0 && WaitTimeout <= 0` (the RPC server does) -/
+structure LoopShape where
+  waitCond : Bool
+  freshTimeout : Bool
+  breaksOnTimeout : Bool
+  earlyEmpty : Bool
+deriving DecidableEq, Repr
+
+/-- a whole `Query` call over cursor state `s`: `backend.Querier.Query` and `rpc.ServerQuerier.query` are this function
+for their respective shapes. A loop whose wait logic is not the recognised one is modelled as a loop that never waits
+(so that a changed shape makes the two differ, or differ from the measured behaviour). -/
+def queryCall {σ : Type} (k : LoopShape) (c : Cur σ) (waitTimeout lim fuel : Nat) (s : σ) : QRes :=
+  if k.earlyEmpty && lim == 0 && waitTimeout == 0 then .ok []
+  else if k.waitCond && k.freshTimeout && k.breaksOnTimeout then queryLoop c waitTimeout lim fuel lim s []
+  else queryLoop c 0 lim fuel lim s []
+
 /-- `cursor.emptyCursor`: `Get` is `io.EOF`; `WaitNewData` returns nil at once iff `waitReturnsAtOnce` (regenerated from the
 source; that was finding F11), else — the code since 2ae8d4c — it is a blocking step: `<-ctx.Done(); return ctx.Err()`, which
 the caller sees as the wait's timeout -/
